@@ -811,3 +811,187 @@ Definition c07_known_f15 (c : conf) (l : list tstep) : bool :=
      | _ :: ps', None :: os' => go (S k) ps' os'
      | _, _ => false
      end) 0%nat (cf_periphs c) final_obs.
+
+(* ====================================================================================================
+   reset_address (added after phase 1; nothing above this line was changed).
+   `get_mut(h).reset_address(a)` is a user call that asks for a new bring-up of that peripheral, possibly
+   at another address: the code puts the peripheral back to its initial state (not live, retry counter 0,
+   frame count bit First) without raising an event.  The monitors below wrap the monitors above: they keep
+   the CURRENT address of every configured peripheral (a conf whose pc_addr fields are updated) and at a
+   reset_address step put their per-address state back to its initial value:
+     C03  phase NeedDiag                    (it was "asked to be re-parameterised")
+     C08  not live, next request FCV=0/FCB=1, no request counted; an outstanding reply no longer counts
+     C14  life-cycle state Off without an event (Online comes first again); the handle carries the new address
+     C04  an outstanding reply must not update the image any more
+   For transcripts without reset_address steps they are the monitors above.
+   ==================================================================================================== *)
+
+Definition pconf_set_addr (p : pconf) (a : Z) : pconf :=
+  mkPconf (pc_slot p) (pc_late p) a (pc_opts p) (pc_in p) (pc_out p) (pc_diag p).
+
+Definition conf_set_addr (c : conf) (k : nat) (a : Z) : conf :=
+  mkConf (cf_params c) (cf_bufsize c) (cf_nslots c) (cf_owned c) (cf_autotake c)
+         (match nth_error (cf_periphs c) k with
+          | Some p => set_nth (cf_periphs c) k (pconf_set_addr p a)
+          | None => cf_periphs c
+          end)
+         (cf_slaves c).
+
+Definition conf_addr (c : conf) (k : nat) : option Z :=
+  match nth_error (cf_periphs c) k with Some p => Some (pc_addr p) | None => None end.
+
+(* the reset_address call of this step, if it was carried out: (k, old address, new address) *)
+Definition reset_of (c : conf) (s : tstep) : option (nat * Z * Z) :=
+  match ts_in s, ts_out s with
+  | InResetAddr k a, OutUnit =>
+      match conf_addr c k with Some old => Some (k, old, a) | None => None end
+  | _, _ => None
+  end.
+
+(* the configuration after the reset_address calls of a transcript *)
+Definition conf_after (c : conf) (l : list tstep) : conf :=
+  fold_left (fun c s => match reset_of c s with Some (k, _, a) => conf_set_addr c k a | None => c end) l c.
+
+(* every intermediate configuration can be interpreted per address *)
+Fixpoint ra_sane (c : conf) (l : list tstep) : bool :=
+  match l with
+  | [] => conf_sane c
+  | s :: r =>
+      conf_sane c &&
+      ra_sane (match reset_of c s with Some (k, _, a) => conf_set_addr c k a | None => c end) r
+  end.
+
+(* does the transcript contain a reset_address step at all *)
+Definition has_reset (l : list tstep) : bool :=
+  existsb (fun s => match ts_in s with InResetAddr _ _ => true | _ => false end) l.
+
+(* --- C03 *)
+Definition c03_step_ra (st : conf * c03g) (i : nat) (s : tstep) : (conf * c03g) + Z :=
+  let (c, g) := st in
+  match reset_of c s with
+  | Some (k, old, a) =>
+      inl (conf_set_addr c k a,
+           mkC03g (alist_set (alist_set (g3_per g) old PhNeedDiag) a PhNeedDiag) (g3_pending g))
+  | None =>
+      match c03_step c g i s with
+      | inl g' => inl (c, g')
+      | inr code => inr code
+      end
+  end.
+Definition c03_monitor_ra (c : conf) (l : list tstep) : verdict :=
+  run_monitor c03_step_ra (c, mkC03g [] None) 0 l.
+
+(* --- C08 *)
+Definition c08_step_ra (max_retry : nat) (st : conf * c08g) (i : nat) (s : tstep) : (conf * c08g) + Z :=
+  let (c, g) := st in
+  match reset_of c s with
+  | Some (k, old, a) =>
+      let pending' := match g8_pending g with
+                      | Some (da, sv) => if da =? old then None else Some (da, sv)
+                      | None => None
+                      end in
+      inl (conf_set_addr c k a,
+           mkC08g (alist_set (alist_set (g8_per g) old c08_init) a c08_init) pending')
+  | None =>
+      match c08_step max_retry g i s with
+      | inl g' => inl (c, g')
+      | inr code => inr code
+      end
+  end.
+Definition c08_monitor_ra (c : conf) (l : list tstep) : verdict :=
+  run_monitor (c08_step_ra (Z.to_nat (p_max_retry (cf_params c)))) (c, mkC08g [] None) 0 l.
+
+(* --- C04 *)
+Definition c04_step_ra (st : conf * c04g) (i : nat) (s : tstep) : (conf * c04g) + Z :=
+  let (c, g) := st in
+  match reset_of c s with
+  | Some (k, old, a) =>
+      (* the images themselves must survive the call: judged by the wrapped step with no reply pending *)
+      let pending' := match g4_pending g with
+                      | Some (da, sv) => if da =? old then None else Some (da, sv)
+                      | None => None
+                      end in
+      match c04_step c (mkC04g (g4_obs g) (g4_op g) pending') i s with
+      | inl g' => inl (conf_set_addr c k a, g')
+      | inr code => inr code
+      end
+  | None =>
+      match c04_step c g i s with
+      | inl g' => inl (c, g')
+      | inr code => inr code
+      end
+  end.
+Definition c04_monitor_ra (c : conf) (obs0 : list (option pobs)) (l : list tstep) : verdict :=
+  run_monitor c04_step_ra (c, mkC04g obs0 OpStop None) 0 l.
+
+(* --- C14 *)
+Definition handles_set_addr (hs : list (option handle)) (k : nat) (a : Z) : list (option handle) :=
+  match nth_error hs k with
+  | Some (Some h) => set_nth hs k (Some (mkHandle (hd_index h) a))
+  | _ => hs
+  end.
+
+Definition c14_step_ra (st : conf * c14g) (i : nat) (s : tstep) : (conf * c14g) + Z :=
+  let (c, g) := st in
+  match reset_of c s with
+  | Some (k, old, a) =>
+      let c' := conf_set_addr c k a in
+      (* is_live / is_running must agree with the automaton right after the call, too *)
+      let life := alist_set (alist_set (g14_life g) old LOff) a LOff in
+      (* a turn of this peripheral that is in progress (or over) in this cycle stays its turn, under the
+         new address; the retry counter starts again *)
+      let ren := fun x => if x =? old then a else x in
+      let in_turn := match g14_cur g with Some x => x =? old | None => false end in
+      let g1 := mkC14g life (handles_set_addr (g14_handles g) k a)
+                       (map ren (g14_turns g))
+                       (match g14_cur g with Some x => Some (ren x) | None => None end)
+                       (filter (fun x => negb (x =? old)) (g14_due g))
+                       (if in_turn then 0%nat else g14_sends g) (g14_dirty g) in
+      match c14_step c' g1 i s with
+      | inl g' => inl (c', g')
+      | inr code => inr code
+      end
+  | None =>
+      match c14_step c g i s with
+      | inl g' => inl (c, g')
+      | inr code => inr code
+      end
+  end.
+Definition c14_monitor_ra (c : conf) (hs0 : list (option handle)) (l : list tstep) : verdict :=
+  run_monitor c14_step_ra (c, mkC14g [] hs0 [] None [] 0 false) 0 l.
+
+(* --- C07: the fault-free tail is judged against the addresses in force *)
+Definition c07_step_ra (st : conf * c07g) (i : nat) (s : tstep) : (conf * c07g) + Z :=
+  let (c, g) := st in
+  let c' := match reset_of c s with Some (k, _, a) => conf_set_addr c k a | None => c end in
+  match c07_step c' g i s with
+  | inl g' => inl (c', g')
+  | inr code => inr code
+  end.
+Definition c07_monitor_ra (c : conf) (l : list tstep) : verdict :=
+  match ts_op (last l (mkStep InClean false OutUnit None [] OpStop)) with
+  | OpStop => None
+  | _ => run_monitor c07_step_ra (c, mkC07g (c07_slaves0 c) false 0) 0 l
+  end.
+
+(* ------------------------------------------------------------------ known finding F22
+   reset_address while a request to that peripheral is still outstanding: the code neither remembers that the
+   reply belongs to the previous incarnation nor tolerates it.  With an unchanged address the late reply is
+   handed to the freshly reset peripheral (a diagnostics reply makes it Online although its first request was
+   never sent, and its next request then carries FCV=1 instead of FCV=0/FCB=1); with a changed address
+   DpMaster::receive_reply runs into unreachable!().  KnownClass on a transcript: some reset_address step
+   happens while a request to the peripheral's current address awaits its reply / time-out. *)
+Definition known_reset_while_pending (c : conf) (l : list tstep) : bool :=
+  snd (fold_left (fun (acc : (conf * option Z) * bool) (s : tstep) =>
+         let '(c, pending, hit) := acc in
+         match reset_of c s with
+         | Some (k, old, a) =>
+             (conf_set_addr c k a, pending,
+              hit || match pending with Some da => da =? old | None => false end)
+         | None =>
+             match view_of s with
+             | VReq da _ _ _ => (c, Some da, hit)
+             | VReply _ _ | VTimeout _ | VAbandon => (c, None, hit)
+             | _ => (c, pending, hit)
+             end
+         end) l (c, None, false)).
